@@ -568,7 +568,8 @@ def run_tab_loop(case):
 
     algo, eps = case["algo"], case["epsilon"]
     cfg = dict(script=[[4, "T"], [6, "U"], [3, "T"]], seed=case["seed"],
-               total_timesteps=80, snapshots=False, logger=False, n_states=4,
+               total_timesteps=80 if eps else 800, snapshots=False, logger=False,
+               n_states=4,
                n_actions=3, epsilon=eps, gamma=0.9, learning_rate=0.3)
     run = make_run(algo, cfg)
     mod = importlib.import_module(run.patch_modules[0])
@@ -581,14 +582,31 @@ def run_tab_loop(case):
               row=np.asarray(q_table)[int(observation)].copy())
         return a
 
-    with rebound([(mod, "epsilon_greedy_policy", eg)]):
+    patches = [(mod, "epsilon_greedy_policy", eg)]
+    # the current estimates: the table as of the latest update (single-table
+    # learners whose update routine returns the new table)
+    upd = {"q_learning": "_update_policy", "sarsa": "_update_policy",
+           "dynaq": "q_learning_update"}.get(algo)
+    if upd is not None:
+        orig_upd = getattr(mod, upd)
+
+        def update(*a, **kw):
+            out = orig_upd(*a, **kw)
+            tr.ev("table", q=np.asarray(out).copy())
+            return out
+
+        patches.append((mod, upd, update))
+    with rebound(patches):
         ok, _ = guarded(res, f"C13/raises/train_{algo}", run.call)
     if not ok:
         return res
     last_eg = None
+    current = np.asarray(run.kwargs["q_table"]).copy() if upd is not None else None
     k = nongreedy = 0
     for e in tr.events:
-        if e["k"] == "eg":
+        if e["k"] == "table":
+            current = e["q"]
+        elif e["k"] == "eg":
             # the most recent policy evaluation decides the next step (SARSA may
             # carry the action it evaluated for the successor - that is valid)
             last_eg = e
@@ -615,6 +633,19 @@ def run_tab_loop(case):
                                   f"epsilon=0 but step {k} chose "
                                   f"{last_eg['action']} for values {row.tolist()}")
                     return res
+            if eps == 0.0 and current is not None:
+                # "act greedily on their current estimates": the table as of
+                # this step, not the one an earlier selection was made on
+                crow = current[int(e["prev"])]
+                if crow[int(e["action"])] != crow.max():
+                    res.violation(
+                        f"C13/loop/not_greedy_on_current_estimates/{algo}",
+                        f"epsilon=0: step {k} executed action {int(e['action'])} in "
+                        f"state {e['prev']} whose current values are "
+                        f"{crow.tolist()} (the action was selected on "
+                        f"{row.tolist()}, before an update of that row)")
+                    return res
+                res.see("greedy_on_current_table_checks")
             k += 1
             res.see("loop_steps_checked")
     if eps > 0:
